@@ -13,4 +13,10 @@ CHECKS = {
     text="Every crash state of the complete write history of small multi-iteration jft.optimize_kl runs (MGVI, sample-mode switching, MAP->VI, geoVI) is materialised; resume=True must finish and return samples, keys and optimisation state bit-identical to the uninterrupted run, and persist an equivalent state.",
     note="Process-kill model (no power-loss reordering); writes must go through Python open() (asserted by comparing the model FS with the real directory); scenarios are tiny models.",
     ref="DESIGN.md section 4 (C24)"),
+ "C25": dict(
+    engine="fsfault+case-runner", level="fault_enumeration",
+    technique="exhaustive crash-point enumeration of recorded write histories (every FS event, torn writes, clean end) for save strategies all/latest x sample schedules; every state materialised and resumed with the real driver",
+    text="Every crash state of ift.optimize_kl runs with an output directory (strategies 'all' and 'latest'; schedules that switch between MAP and sampled iterations and shrink the sample count) is resumed with resume=True from a pristine process state; the final samples and mean must be bit-identical to the uninterrupted run and the directory left behind must load to the same result. Three genuine defects were repaired (fix: commits); the in-place overwrite window of strategy 'latest' is a recorded known finding.",
+    note="Process-kill model; plotting/HDF5 export disabled (C-level writes are outside the seam); report files with timestamps not compared; comm=None.",
+    ref="DESIGN.md section 4 (C25)"),
 }
